@@ -832,9 +832,13 @@ impl<E: Effect> Executor<E> {
                 }
             }
             Err(error) => {
-                // Error: set error and terminate the process
-                process.result = Some(Err(error));
-                process.frames.clear();
+                // Error: set error and terminate the process (unless it has finished meanwhile:
+                // a process failed by an awaited process while its effect was in flight keeps
+                // that result)
+                if process.result.is_none() {
+                    process.result = Some(Err(error));
+                    process.frames.clear();
+                }
             }
         }
 
@@ -1292,8 +1296,12 @@ impl<E: Effect> Executor<E> {
                             .ok(); // Ignore errors since this is internal notification
                     }
                     Some(Err(error)) => {
-                        // Error - propagate to awaiter by setting their result
-                        if let Some(awaiter_process) = self.get_process_mut(awaiter) {
+                        // Error - propagate to awaiter by setting their result. An awaiter that has
+                        // already finished (it failed inside the select that lists this process)
+                        // keeps the result it has.
+                        if let Some(awaiter_process) = self.get_process_mut(awaiter)
+                            && awaiter_process.result.is_none()
+                        {
                             awaiter_process.result = Some(Err(error.clone()));
                             awaiter_process.frames.clear();
                         }
